@@ -346,7 +346,8 @@ def reused_objects(R, rng, tier):
     remembered on the operand objects."""
     import numpy as np
     from kingdon import MultiVector
-    unary = ['normsq', 'inv', 'reverse', 'conjugate', 'neg', 'norm', 'normalized', 'hodge', 'outerexp', 'sqrt']
+    unary = ['normsq', 'inv', 'reverse', 'conjugate', 'neg', 'norm', 'normalized', 'hodge', 'outerexp', 'sqrt', 'pow-1', 'pow-2', 'pow2', 'pow-1']
+    special = {'pow-1': lambda v: v ** -1, 'pow-2': lambda v: v ** -2, 'pow2': lambda v: v ** 2}
     binary = ['gp', 'op', 'sw', 'proj', 'add', 'sub', 'ip']
     for it in range(10 if tier == 'quick' else 150):
         d = rng.choice((2, 3, 3))
@@ -361,12 +362,12 @@ def reused_objects(R, rng, tier):
         vals = fresh_vals()
         x = MultiVector.fromkeysvalues(alg, ks, np.array(vals) if arr else [np.array(v) for v in vals])
         y = MultiVector.fromkeysvalues(alg, ks, np.array(fresh_vals()))
-        ops = rng.sample(unary, 3) + rng.sample(binary, 2)
+        ops = list(dict.fromkeys(rng.sample(unary, 4))) + rng.sample(binary, 2)
         def run_ops(a, xx, yy):
             out = {}
             for op in ops:
                 try:
-                    r = getattr(xx, op)() if op in unary else getattr(a, op)(xx, yy)
+                    r = special[op](xx) if op in special else getattr(xx, op)() if op in unary else getattr(a, op)(xx, yy)
                     out[op] = ('ok', [(int(k), np.asarray(v, dtype=float).tolist()) for k, v in zip(r.keys(), r.values())])
                 except Exception as e:  # noqa
                     out[op] = ('err', type(e).__name__)
